@@ -184,9 +184,19 @@ fn collect(info: &ModuleInfo) -> Vec<Reported> {
 
 const MEDIA: &[&str] = &["ts", "js", "tsx", "jsx", "d.ts", "mjs"];
 
-fn body(max_items: usize) -> impl Fn(&Ch) -> Run + Sync + Send {
-  move |ch: &Ch| {
-    let mut run = Run::default();
+pub struct GenProgram {
+  pub ext: &'static str,
+  pub text: String,
+  pub full: String,
+  pub crlf: bool,
+  pub bom: bool,
+  pub shebang: bool,
+  pub names: Vec<&'static str>,
+  expected: Vec<Item>,
+}
+
+pub fn gen_program(ch: &Ch, max_items: usize) -> GenProgram {
+  {
     let all = forms();
     let ext = MEDIA[ch.shape("media", MEDIA.len())];
     let avail: Vec<&Form> = all.iter().filter(|f| f.media.contains(&ext)).collect();
@@ -277,12 +287,22 @@ fn body(max_items: usize) -> impl Fn(&Ch) -> Run + Sync + Send {
       }
       text = out;
     }
+    let full = if bom { format!("\u{FEFF}{text}") } else { text.clone() };
+    GenProgram { ext, text, full, crlf, bom, shebang, names: ordered.iter().map(|c| c.form.name).collect(), expected }
+  }
+}
+
+fn body(max_items: usize) -> impl Fn(&Ch) -> Run + Sync + Send {
+  move |ch: &Ch| {
+    let mut run = Run::default();
+    let gp = gen_program(ch, max_items);
+    let (ext, text, full, crlf, bom, shebang, expected) = (gp.ext, gp.text.clone(), gp.full.clone(), gp.crlf, gp.bom, gp.shebang, gp.expected.clone());
+    let names = gp.names.clone();
     let media_type = MediaType::from_specifier(&url(&format!("file:///p.{ext}")));
     let spec = url(&format!("file:///p.{ext}"));
-    let full = if bom { format!("\u{FEFF}{text}") } else { text.clone() };
     let analyzer = deno_graph::ast::ParserModuleAnalyzer::default();
     run.evals = 1;
-    let case = |extra: Value| json!({"media": ext, "source": full, "crlf": crlf, "bom": bom, "shebang": shebang, "items": ordered.iter().map(|c| c.form.name).collect::<Vec<_>>(), "detail": extra});
+    let case = |extra: Value| json!({"media": ext, "source": full, "crlf": crlf, "bom": bom, "shebang": shebang, "items": names, "detail": extra});
     let info = match analyzer.analyze_sync(&spec, full.clone().into(), media_type) {
       Ok(i) => i,
       Err(e) => {
